@@ -46,6 +46,8 @@ FORMS_RAW = {  # formula -> referenced columns (those whose nulls matter)
     "C(zt) + x": ["x"], "C(zo):x + y": ["x", "y"],
     # a bare name resolving to a context vector that holds the only nulls (positions 2, 6, ..)
     "zn + x": ["x"], "zn": [], "y ~ zn:A": ["y", "A"],
+    # a data column called `index` (what reset_index() leaves behind)
+    "index + x": ["index", "x"], "A:index": ["A", "index"], "y ~ index | S": ["y", "index", "S"],
 }
 CTX_FORMS = {"zl + x": "zl", "za:x + A": "za", "zs + x + y": "zs", "y ~ zl + x": "zl"}
 FORMS = FORMS_RAW
@@ -65,6 +67,7 @@ def gen_case(rng: random.Random, tier: str) -> dict:
             ["y", {"kind": "num", "dtype": "float64", "values": [nul(round(rng.gauss(0, 1), 5)) for _ in range(n)]}],
             ["p", {"kind": "num", "dtype": "float64", "values": [nul(round(rng.uniform(1, 2), 5)) for _ in range(n)]}],
             ["q", {"kind": "num", "dtype": "float64", "values": [round(rng.gauss(0, 1), 5) for _ in range(n)]}],
+            ["index", {"kind": "num", "dtype": "float64", "values": [nul(float(i)) for i in range(n)]}],
             ["n", {"kind": "num", "dtype": rng.choice(["Int64", "Int64", "float64"]), "values": [nul(rng.randint(0, 3)) for _ in range(n)]}],
             ["b", {"kind": "bool", "dtype": "boolean", "values": [nul(rng.random() < 0.5) for _ in range(n)]}],
             ["A", {"kind": "cat", "categories": ["u", "v", "w"], "values": [nul(rng.choice("uvw")) for _ in range(n)]}],
